@@ -212,6 +212,27 @@ fn fri_challenges_options(w: &mut dyn Write, r: &mut Rng, thorough: bool) -> usi
                 };
                 let Some(base) = stage(&caps, &poly, pw) else { continue };
                 let subject = format!("fri_challenges/coeffs{ncoef}-caps{ncaps}-len{}-steps{}", fl.map_or("none".into(), |x| x.to_string()), st.map_or("none".into(), |x| x.to_string()));
+                // the padding arguments are DEFINED by explicit padding (Model/RecursionParts.v native_ops = circuit_ops of
+                // the padded proof, Props/C11.v): the same challenges as for zero caps / zero coefficients written out
+                if fl.map_or(true, |l| l >= ncoef) && st.map_or(true, |k| k >= ncaps) {
+                    let mut caps_p = caps.clone();
+                    for _ in ncaps..st.unwrap_or(ncaps) { caps_p.push(MerkleCap(vec![HashOut { elements: [F::ZERO; 4] }; 1usize << cfg.cap_height])); }
+                    let mut poly_p = poly.clone();
+                    for _ in ncoef..fl.unwrap_or(ncoef) { poly_p.coeffs.push(FE::ZERO); }
+                    let explicit = catch_unwind(AssertUnwindSafe(|| {
+                        let mut ch = Challenger::<F, H>::new();
+                        let c = ch.fri_challenges::<C, D>(&caps_p, &poly_p, pw, 6, &cfg, None, None);
+                        (c.fri_alpha, c.fri_betas[..ncaps].to_vec(), c.fri_pow_response, c.fri_query_indices.clone())
+                    }));
+                    let implicit = catch_unwind(AssertUnwindSafe(|| {
+                        let mut ch = Challenger::<F, H>::new();
+                        let c = ch.fri_challenges::<C, D>(&caps, &poly, pw, 6, &cfg, *fl, *st);
+                        (c.fri_alpha, c.fri_betas[..ncaps].to_vec(), c.fri_pow_response, c.fri_query_indices.clone())
+                    }));
+                    let same = matches!((&explicit, &implicit), (Ok(a), Ok(b)) if a == b);
+                    writeln!(w, "c04 stark:{subject} padding-equals-explicit-zeros 0 = {} # zero caps up to the step count and zero coefficients up to the length, written out", same as u8).unwrap();
+                    n += 1;
+                }
                 for j in 0..ncoef {
                     if ncoef > 8 && j % 3 != 0 && j != ncoef - 1 { continue; }
                     let mut p2 = poly.clone();
